@@ -33,10 +33,15 @@ CHECKS["C19"] = dict(
 
 CHECKS["C15"] = dict(
     category="proof",
-    text=("Coq model of Multicast._initialize/subscribe/unsubscribe with the NCP table; theorems for every table size, every admissible "
+    text=("Coq model of Multicast._initialize/startup/subscribe/unsubscribe with the NCP table; theorems for every table size, every admissible "
           "initial table and every call sequence: index partition invariant under every answer incl. timeouts, host view = NCP table "
-          "when writes are answered, idempotent subscribe, full table, failed call keeps the free count. Tied to the real Multicast "
-          "class by correspondence (exhaustive short sequences x sizes x answers, random long ones; Python's set.pop choice fed to the model). __init__, _initialize and startup are additionally emitted from their Python source and proved to be the model's Init / start-up for every table and answer sequence (c15_source_initialize, c15_source_startup, c15_source_scan_entry)."),
+          "when writes are answered, idempotent subscribe, full table, failed call keeps the free count. Multicast.startup(coordinator) is an "
+          "operation of the model (Startup: scan, then one subscribe per listed group, all writes answered alike, ended by a timeout); the "
+          "invariants are proved by induction over operation sequences of any length with start-ups and scans anywhere (c15_xrun_partition, "
+          "c15_xrun_answered), plus what one start-up does with its writes (c15_startup_writes_once, c15_startup_fail_keeps_free). Tied to the real Multicast "
+          "class by correspondence (exhaustive short sequences x sizes x answers, random long ones, start-up calls included: every table write of the call is compared; "
+          "Python's set.pop choice fed to the model). __init__, _initialize and startup are additionally emitted from their Python source and proved to be the model's Init / Startup "
+          "for every table and answer sequence (c15_source_initialize, c15_source_startup, c15_source_startup_op, c15_source_scan_entry)."),
     design_ref="DESIGN.md section 6 C15",
     technique="Coq proof (invariants by induction over call sequences) + model/implementation correspondence",
 )
